@@ -213,6 +213,9 @@ class VirtRig:
         self.ctx_fail = False
         self.deadlock = False
         self.setup_failed = False
+        self.prior_abort = None      # task that fails (by context) in an earlier, aborted call on the same Lab
+        self.in_prior = False
+        self.orphans: list = []
         self.tnames = None
         self.dep_order = None
         self.int_lines = int_lines   # line-boundary injection: list of global line-event indices
@@ -262,6 +265,9 @@ class VirtRig:
 
     def apply_block(self, marker):
         """Apply environment decisions up to and including the next `marker` entry."""
+        if self.in_prior:
+            self.apply_default()        # the earlier (aborting) call does not consume the schedule
+            return
         used_marker = False
         while self.pos < len(self.schedule):
             ent = self.schedule[self.pos]
@@ -570,6 +576,38 @@ class VirtRig:
             main_ctx['failnow'] = list(cfg['fail'])      # (the earlier call on the same instances ran without it: all succeeded)
         lab = labtech.Lab(storage=storage, context=main_ctx, runner_backend=rb,
                           max_workers=cfg['maxw'], continue_on_failure=cfg['cof'], notebook=False)
+        if self.prior_abort is not None and not cfg['cof'] and backend != 'serial':
+            # An earlier call on the very same Lab (and the same task instances) that is aborted by a task failure
+            # (continue_on_failure=False) while other tasks are still queued or running.  Whatever it leaves behind in the
+            # process -- queued futures, running-process tables, held results -- must not show in the call under observation.
+            main_ctx['failnow'] = [self.prior_abort]
+            self.in_prior = True
+            old_prof = signal.signal(signal.SIGPROF, lambda *_a: (_ for _ in ()).throw(RigHang('earlier call did not finish')))
+            old_alrm = signal.signal(signal.SIGALRM, lambda *_a: (_ for _ in ()).throw(RigHang('earlier call did not finish')))
+            signal.setitimer(signal.ITIMER_PROF, VirtRig.WATCHDOG_S)
+            signal.setitimer(signal.ITIMER_REAL, VirtRig.WALL_BACKSTOP_S)
+            try:
+                lab.run_tasks([built.make(t) for t in range(1, cfg['n'] + 1)], bust_cache=cfg['bust'], disable_progress=True,
+                              disable_top=True)        # (the earlier call asks for every task, the observed one for its own list)
+            except BaseException:   # noqa  (LabError is the point; anything else shows in the observed call or not at all)
+                pass
+            finally:
+                signal.setitimer(signal.ITIMER_PROF, 0)
+                signal.setitimer(signal.ITIMER_REAL, 0)
+                signal.signal(signal.SIGPROF, old_prof)
+                signal.signal(signal.SIGALRM, old_alrm)
+            self.in_prior = False
+            self.orphans, self.workers = list(self.workers.values()), {}
+            del self.trace[:]
+            self.logq, self.resq, self.monq = [], [], []
+            self.phase, self.idle_polls, self.deadlock, self.round = 'idle', 0, False, 0
+            self.delivered = []
+            try:
+                # what the earlier call managed to store is removed again: the observed call starts from the configured pre-state
+                lab.uncache_tasks([built.make(t) for t in range(1, cfg['n'] + 1) if t not in cfg['cached0']])
+            except BaseException:   # noqa
+                pass
+            main_ctx['failnow'] = list(cfg['fail'])
         self.muted = False
         self.trace.append({'e': 'call'})
         self.preload_int()
